@@ -465,6 +465,29 @@ def controller_facts(csrc, src):
         found['acquire_drop_unstarted'] = 'false'      # the pinned tree before fix 97393b9
     else:
         raise TranslateError(f'ikesacontroller.py: process_acquire: statements changed: {shape}')
+    # IkeSaController._get_ike_sa_by_addrs: which IkeSa of the connection is handed an ACQUIRE (fix 1753c24: one that is
+    # neither being replaced nor being closed)
+    gfn = csrc.func('IkeSaController._get_ike_sa_by_addrs')
+    gb = _stmts(gfn)
+    if len(gb) != 1 or not isinstance(gb[0], ast.Return):
+        csrc.fail(gfn, '_get_ike_sa_by_addrs: single return expected')
+    gtxt = ast.unparse(gb[0].value)
+    base = 'next((x for x in self.ike_sas if x.my_addr == my_addr and x.peer_addr == peer_addr'
+    if gtxt == base + '))':
+        found['acquire_usable'] = 'true'
+    elif gtxt.startswith(base + ' and (x.state not in (') and gtxt.endswith('))))'):
+        names = gtxt[len(base + ' and (x.state not in ('):-4].split(', ')
+        if not names or any(not n_.startswith('IkeSa.State.') for n_ in names):
+            csrc.fail(gfn, f'_get_ike_sa_by_addrs: state filter outside the subset: {names}')
+        svals = _states_env(src)
+        terms = []
+        for n_ in names:
+            if n_ not in svals:
+                csrc.fail(gfn, f'_get_ike_sa_by_addrs: unknown state {n_}')
+            terms.append(f'Z.eqb st {svals[n_]}')
+        found['acquire_usable'] = 'negb (' + ' || '.join(terms) + ')'
+    else:
+        csrc.fail(gfn, f'_get_ike_sa_by_addrs changed shape: {gtxt}')
     init = csrc.func('IkeSaController.__init__')
     th = [s for s in init.body if isinstance(s, ast.Assign) and ast.unparse(s.targets[0]) == 'self.cookie_threshold']
     if len(th) != 1:
@@ -1380,6 +1403,8 @@ def translate(ctx=None):
     L.append(f'Definition dispatch_drop_ignored (st : Z) : bool := {ctl["drop_ignored"]}.')
     L.append('\n(* IkeSaController.process_acquire: an initiator created for this ACQUIRE is removed again when ... *)')
     L.append(f'Definition acquire_drop_unstarted (st : Z) : bool := {ctl["acquire_drop_unstarted"]}.')
+    L.append('(* IkeSaController._get_ike_sa_by_addrs: an IkeSa of the connection is handed the ACQUIRE only if ... *)')
+    L.append(f'Definition acquire_usable (st : Z) : bool := {ctl["acquire_usable"]}.')
     L.append('\n(* cookie check of _process_ike_sa_negotiation_request (it precedes every negotiation step) *)')
     L.append(f'Definition cookie_reject (ncookies : Z) (first_equal : bool) : bool := {cook["cookie_reject"]}.')
     L.append(f'Definition N_COOKIE : Z := {cook["COOKIE"]}.')
